@@ -119,11 +119,30 @@ func (r *R) Undecided(where, construct string, pos token.Pos, format string, arg
 // Check is sugar: discharged iff cond.
 func (r *R) Check(cond bool, where, construct string, pos token.Pos, okFmt, badFmt string, args ...any) bool {
 	if cond {
-		r.OK(where, construct, pos, okFmt, args...)
+		r.OK(where, construct, pos, "%s", sprintfLoose(okFmt, args))
 	} else {
-		r.Bad(where, construct, pos, badFmt, args...)
+		r.Bad(where, construct, pos, "%s", sprintfLoose(badFmt, args))
 	}
 	return cond
+}
+
+// sprintfLoose formats with only as many arguments as the format has verbs (the ok and bad
+// messages of Check share one argument list).
+func sprintfLoose(format string, args []any) string {
+	n := 0
+	for i := 0; i < len(format); i++ {
+		if format[i] == '%' {
+			if i+1 < len(format) && format[i+1] == '%' {
+				i++
+				continue
+			}
+			n++
+		}
+	}
+	if n < len(args) {
+		args = args[:n]
+	}
+	return fmt.Sprintf(format, args...)
 }
 
 func (r *R) AnchorMissing(name string) {
